@@ -6,6 +6,7 @@
 pub mod alloc;
 pub mod cur;
 pub mod report;
+#[cfg(not(feature = "fewshapes"))]
 pub mod queues;
 pub mod scenarios;
 pub mod shapes;
@@ -19,6 +20,7 @@ pub use report::{CaseReport, Opts, Violation};
 pub fn run_engine(engine: &str, bytes: &[u8], opts: &Opts) -> CaseReport {
     match engine {
         "timers" => timers::run_case(bytes, opts),
+        #[cfg(not(feature = "fewshapes"))]
         "queues" => queues::run_case(bytes, opts),
         "vm" => vm::exec::run_case(bytes, opts),
         "scenario" => {
